@@ -9,8 +9,8 @@ Ltac Zify.zify_post_hook ::= Z.div_mod_to_equations.
 
 Lemma mk_unpacker_ok k pt clock u : mk_unpacker true k pt clock = Some u -> unp_ok u.
 Proof.
-  unfold mk_unpacker, unp_ok. cbn [andb]. destruct (w32 (Z.quot clock 1000) =? 0) eqn:E; [discriminate|].
-  intros [= <-]. cbn [uk_clock]. now apply N.eqb_neq.
+  unfold mk_unpacker, unp_ok, clock_ok. cbn [andb]. destruct (w32 (Z.quot (int64_of clock) 1000) =? 0) eqn:E; [discriminate|].
+  intros [= <-]. cbn [uk_clock]. split; [now apply N.eqb_neq|]. unfold int64_of. lia.
 Qed.
 
 Definition cfg_ok (cfg : sess_cfg) : Prop :=
